@@ -5,7 +5,7 @@ import ast
 from typing import Dict, List, Optional, Tuple
 
 from sa.core.common import AnalysisError
-from sa.core.pyfacts import Func, Repo, arg, call_name, const_str, kwarg, src, walk_no_nested
+from sa.core.pyfacts import Func, Repo, arg, call_name, const_str, kwarg, src, walk_no_nested, ordk, ordk_end
 from sa.core.scope_typestate import Rec, ScopeInterp, St
 
 # Frozen classification of the handlers of query_ast_visitor by what they do to the emission cursor
@@ -874,7 +874,7 @@ def check_created_variables_declared(col, rule: str, repo: Repo, floor: int = 8)
             from sa.core.paths import positive
             asserts = {src(positive(x.test)[0]) for x in ast.walk(f.node) if isinstance(x, ast.Assert)}
             g_create = {(src(t), tr_) for t, tr_ in guards(f.node, a, pm) if src(t) not in asserts}
-            ok = any({(src(t), tr_) for t, tr_ in guards(f.node, c, pm) if src(t) not in asserts} <= g_create and c.lineno > a.lineno for c in decls)
+            ok = any({(src(t), tr_) for t, tr_ in guards(f.node, c, pm) if src(t) not in asserts} <= g_create and ordk(c) > ordk(a) for c in decls)
             col.add(rule, f.short, f"created-variable-is-declared:{name}", ok,
                     f"`{name} = {call_name(a.value)}(...)` introduces a C++ identifier that the emitted statements use; it must be passed to declare_variable "
                     f"(found {len(decls)} declaration call(s) for it, conditions compared with its creation)", f"{f.module.rel}:{a.lineno}")
@@ -931,7 +931,7 @@ def check_emission_pipeline(col, rule: str, repo: Repo):
             fed = [c for c in walk_no_nested(fn) if isinstance(c, ast.Call) and isinstance(c.func, ast.Attribute) and src(c.func.value) == qv
                    and [src(a) for a in c.args] == [em]]
             made = defs_of(fn, em)
-            ok = len(fed) == 1 and fed[0].func.attr == via and fed[0].lineno < v.lineno and len(made) == 1 and isinstance(made[0], ast.Call) and not made[0].args
+            ok = len(fed) == 1 and fed[0].func.attr == via and ordk(fed[0]) < ordk(v) and len(made) == 1 and isinstance(made[0], ast.Call) and not made[0].args
         col.add(rule, wf.short, f"info[{key}]<-{via}", ok,
                 f"info['{key}'] must be the lines of a new emitter that was filled by {qv}.{via}(<that emitter>) (found {src(v) if v is not None else None})", wf.loc)
     v = items.get("class_decl")
